@@ -1,4 +1,94 @@
-import ShmVerif.Model.FreeListC
+import ShmVerif.Proof.FreeListInit
+/-!
+  C02 — the allocator neither loses nor duplicates buffers.
+
+  * `c02_conservation_seq` : every sequential-atomic history — free count = length of the free chain, free count + number
+      of owned slots = capacity; the chain from `head` (computeFreeSliceNum's walk) is duplicate-free and ends at `tail`.
+  * `c02_quiescent_full_seq` : whenever every buffer has been recycled (nobody owns anything): size = cap and the walk from
+      `head` visits every slot exactly once and ends at `tail`.
+  * `c02_failed_alloc_consumes_nothing` : a pop that fails (class down to its last slot) leaves every shared word unchanged.
+  * `c02_aba_witness` : the unrestricted concurrent statement is FALSE of the model (and the code, finding F1): the ABA
+      schedule followed by everybody recycling gives size = cap = 4 but a walk that visits 2 slots.
+  The concurrent statement restricted to ABA-free interleavings is NOT proved: the claim is partial.
+-/
 namespace Props.C02
-theorem placeholder : True := trivial
+open FreeListC
+
+theorem c02_conservation_seq (n : Nat) (hn : 0 < n) (progs : List (List Op)) (ts : List Nat) :
+    let s := seqRun (prime (init n progs)) ts
+    ∃ free, s.size = free.length ∧ free.length + (s.ths.flatMap owned).length = s.slots.length ∧
+      walk (free.length + 1) s s.head = free ∧ free.Nodup ∧ free.getLast? = some s.tail := by
+  intro s
+  obtain ⟨free, h⟩ := seqRun_rep _ ts _ (rep_init n hn progs)
+  refine ⟨free, h.size, by have := h.total; simpa using this, ?_, (List.nodup_append.mp h.nodup).1, h.tail⟩
+  cases hf : free with
+  | nil => have := h.chain; simp [hf, Chain] at this
+  | cons a rest =>
+    have ha : s.head = a := by have := h.head; simpa [hf] using this.symm
+    have hc := h.chain; rw [hf] at hc
+    rw [ha]
+    exact walk_chain s rest a _ hc (by simp only [List.length_cons]; omega)
+
+theorem c02_quiescent_full_seq (n : Nat) (hn : 0 < n) (progs : List (List Op)) (ts : List Nat) :
+    let s := seqRun (prime (init n progs)) ts
+    s.ths.flatMap owned = [] →
+    s.size = s.slots.length ∧
+    ∃ free, walk (s.slots.length + 1) s s.head = free ∧ free.Nodup ∧ free.length = s.slots.length ∧
+            (∀ i, i < s.slots.length → i ∈ free) ∧ free.getLast? = some s.tail := by
+  intro s hq
+  obtain ⟨free, h⟩ := seqRun_rep _ ts _ (rep_init n hn progs)
+  have htot := h.total
+  have hnd := h.nodup
+  have hbd := h.bound
+  simp only [show (seqRun (prime (init n progs)) ts).ths.flatMap owned = [] from hq, List.append_nil] at htot hnd hbd
+  refine ⟨by rw [h.size, htot], free, ?_, hnd, htot, ?_, h.tail⟩
+  · cases hf : free with
+    | nil => have := h.chain; simp [hf, Chain] at this
+    | cons a rest =>
+      have ha : s.head = a := by have := h.head; simpa [hf] using this.symm
+      have hc := h.chain; rw [hf] at hc
+      rw [ha, ← htot, hf]
+      exact walk_chain s rest a _ hc (by simp only [List.length_cons]; omega)
+  · intro i hi
+    have := h.complete i hi
+    simpa [show (seqRun (prime (init n progs)) ts).ths.flatMap owned = [] from hq] using this
+
+theorem c02_failed_alloc_consumes_nothing (s : State) (t : Nat) (th : Th) (hth : s.ths[t]? = some th)
+    (hpc : th.pc = .pLdHead) (hsz : s.size ≤ 1) :
+    let s' := opRun 16 s t
+    s'.head = s.head ∧ s'.tail = s.tail ∧ s'.size = s.size ∧ s'.slots = s.slots ∧ s'.counter = s.counter ∧
+    ∃ th', s'.ths[t]? = some th' ∧ (owned th').Perm (owned th) ∧ th'.res.length > th.res.length := by
+  intro s'
+  have e := opRun_pop_fail s t th hth hpc hsz
+  have ht : t < s.ths.length := by
+    rcases Nat.lt_or_ge t s.ths.length with h | h
+    · exact h
+    · simp [List.getElem?_eq_none h] at hth
+  have hs' : s' = _ := e
+  refine ⟨by rw [hs'], by rw [hs'], by rw [hs'], by rw [hs'], by rw [hs'], ?_⟩
+  refine ⟨finishOp { th with oldHead := s.head, lver := s.hver, pc := .pIncFail } .nomore, ?_, ?_, ?_⟩
+  · rw [hs']; simp [ht]
+  · have := owned_finishOp { th with oldHead := s.head, lver := s.hver, pc := .pIncFail } .nomore
+    have hown : owned th = th.held := by simp [owned, hpc]
+    rw [hown]; exact this
+  · exact finishOp_res_len { th with oldHead := s.head, lver := s.hver, pc := .pIncFail } .nomore
+
+/-- ABA (finding F1), then everybody recycles: the counter says "full" but the chain has lost two of four slots. -/
+def abaProgs : List (List Op) := [[.pop, .push 0], [.pop, .pop, .push 0, .pop, .push 1, .pop, .push 0, .push 0]]
+def abaSched : List Nat := [0, 0, 0, 0] ++ List.replicate 46 1 ++ List.replicate 11 0 ++ List.replicate 14 1
+
+set_option maxRecDepth 100000 in
+theorem c02_aba_witness :
+    let s := run (prime (init 4 abaProgs)) abaSched
+    s.aba = true ∧ s.size = 4 ∧ s.slots.length = 4 ∧ (s.ths.map (·.pc)) = [.idle, .idle] ∧
+    (s.ths.flatMap owned) = [] ∧ (walk 5 s s.head).length = 2 := by
+  decide
+
+-- non-vacuity: a sequential history that empties the class down to its last slot and refills it
+set_option maxRecDepth 100000 in
+example :
+    let s := seqRun (prime (init 3 [[.pop, .pop, .pop, .push 0, .push 0]])) [0, 0, 0, 0, 0]
+    s.ths.flatMap owned = [] ∧ s.size = 3 ∧ walk 4 s s.head = [2, 0, 1] ∧ s.tail = 1 := by
+  decide
+
 end Props.C02
